@@ -159,11 +159,29 @@ def run_case(res, case):
     late = bool(case.get('max_late'))
     first_max = 4096 if late else max_len
     with stubdul.stubbed() as Stub:
-        if full:
+        by_class_attribute = (mask + len(calls)) % 4 == 0
+        if by_class_attribute:
+            # the application's own entity class states its transfer syntaxes in the documented class
+            # attribute `default_ts` and passes none to the constructor
+            res.count('sim.transfer-syntaxes-from-class-attribute')
+            base = applicationentity.AE if full else applicationentity.ClientAE
+            Entity = type('SiteEntity', (base,), {'default_ts': list(tss)})
+            ae = Entity(local_title, 0, bind_and_activate=False, max_pdu_length=first_max) if full else \
+                Entity(local_title, max_pdu_length=first_max)
+        elif full:
             ae = applicationentity.AE(local_title, 0, supported_ts=tss, bind_and_activate=False,
                                       max_pdu_length=first_max)
         else:
             ae = applicationentity.ClientAE(local_title, supported_ts=tss, max_pdu_length=first_max)
+        if sorted(str(t) for t in ae.supported_ts) != sorted(str(t) for t in tss):
+            # (the request oracle below takes the entity's own attribute as what was configured)
+            res.violation('configured-transfer-syntaxes-ignored', 'C11.request',
+                          'entity configured with transfer syntaxes %r (%s) supports %r' % (
+                              [str(t) for t in tss], 'class attribute default_ts' if by_class_attribute
+                              else 'constructor argument', sorted(str(t) for t in ae.supported_ts)), case)
+            if full:
+                ae.server_close()
+            return
         if late:
             ae.max_pdu_length = max_len      # configured after construction (public attribute)
         try:
@@ -174,6 +192,12 @@ def run_case(res, case):
                     ae.supported_ts = frozenset(TS4[(nth + k) % 4] for k in range(1 + nth % 3))
                 for c in classes:
                     TS_OF.setdefault((id(ae), c), []).append(sorted(str(t) for t in ae.supported_ts))
+                if nth and (mask + nth) % 3 == 0 and ae.context_def_list:
+                    # the application takes its first context out of the (public) table and puts it
+                    # back, e.g. after looking at it: same entry, now last in the dict's order
+                    low = min(ae.context_def_list)
+                    ae.context_def_list[low] = ae.context_def_list.pop(low)
+                    res.count('sim.context-table-reordered')
                 try:
                     if kind == 'ctx':
                         # the documented low-level call: contexts without a service of this entity
